@@ -44,7 +44,7 @@ def worker(args):
 def main():
     sel = sys.argv[1:]
     metas = [json.load(open(f)) for f in sorted(glob.glob(os.path.join(HERE, 'mutants', '*.json')))
-             if not f.endswith('RESULTS.json') and not f.endswith('BUILD.json')]
+             if not f.endswith('RESULTS.json') and not f.endswith('BUILD.json') and not f.endswith('RENAMED.json')]
     if sel:
         metas = [m for m in metas if m['id'] in sel or m['property'] in sel]
     chunks = [(i, metas[i::N]) for i in range(N)]
